@@ -165,9 +165,8 @@ def field_ann(schema, c, n):
     cur = None if schema.get("future_ann") else c
     self_c = c if e.get("self") else None
     if sp.get("annotated") and e.get("annotated"):
-        # Optional[Annotated[T, ..]], not Annotated[Optional[T], ..]: for the latter without a default /repo's to_dict
-        # raises AttributeError on None (nullability is decided before Annotated is unwrapped) - not a C19 matter
-        if e["ty"][0] == "opt":
+        # both nestings: Annotated[Optional[T], ..] and Optional[Annotated[T, ..]]
+        if e["ty"][0] == "opt" and n % 2 == 0:
             inner = py_ty(e["ty"][1], cur=cur, sp=sp, self_c=self_c)
             return f'Optional[Annotated[{inner}, "meta"]]'
         return f'Annotated[{py_ty(e["ty"], cur=cur, sp=sp, self_c=self_c)}, "meta"]'
